@@ -508,6 +508,28 @@ macro_rules! chain_impl {
                     for j in 0..i { if d(&mut c, models[j]) != base[j] || base[j].is_none() { ok = false; break; } }
                     if !ok { continue; }
                     let snapshot = c.pos();
+                    // a seek whose backend position lies beyond the data (with the heads of ANOTHER moment) is refused and
+                    // leaves the coder where it was: decoding goes on as in the straight-through run
+                    if i > 0 {
+                        let Ok(fresh) = SC::from_binary(Cursor::new_at_write_end(data.to_vec())) else { return; };
+                        let mut stale = fresh.pos();
+                        stale.0.compressed = data.len() + 3;
+                        let mut e = c.clone();
+                        st.seeks += 1;
+                        if e.seek(stale).is_ok() {
+                            st.bad.push(("ChainCoder::seek | a position beyond the data is accepted".into(), format!("{NAME}: data {:x?} after {i} symbols", data)));
+                        } else {
+                            for j in i..count {
+                                let got = d(&mut e, models[j]);
+                                if got != base[j] {
+                                    st.bad.push(("ChainCoder::seek | a refused seek changes the coder: later symbols are no longer what their models assign to their chunks".into(),
+                                        format!("{NAME}: data {:x?} models {:?}: refused seek after {i} symbols, position {j} decodes {:?}, straight-through {:?}", data, models, got, base[j])));
+                                    break;
+                                }
+                                if got.is_none() { break; }
+                            }
+                        }
+                    }
                     for _ in i..count { let _ = d(&mut c, alt); }
                     st.seeks += 1;
                     if c.seek(snapshot).is_err() {
